@@ -171,8 +171,11 @@ def run(tier, seed, repo, focus=None):
     known = load_known()
     # small sensitivities make a single in-margin sample trigger the warning, so that short sequences reach the
     # oracle phase and complete it with higher (g_ok) and lower (g_bad) accuracy than the reference
-    configs = [(0.05, 2, 2, 24), (0.2, 3, 3, 24)] if quick else \
-        [(0.05, 2, 2, 24), (0.2, 3, 3, 24), (0.05, 4, 4, 24), (0.5, 2, 2, 24), (1.0, 3, 2, 24), (0.02, 4, 3, 30)]
+    # (the last two: reference / oracle sizes that are NOT multiples of k, so the folds have unequal sizes and the mean over
+    # the folds differs from the pooled ratio)
+    configs = [(0.05, 2, 2, 24), (0.2, 3, 3, 24), (0.05, 3, 2, 25), (0.2, 5, 3, 23)] if quick else \
+        [(0.05, 2, 2, 24), (0.2, 3, 3, 24), (0.05, 4, 4, 24), (0.5, 2, 2, 24), (1.0, 3, 2, 24), (0.02, 4, 3, 30),
+         (0.05, 3, 2, 25), (0.2, 5, 3, 23), (0.1, 5, 4, 27)]
     rng = np.random.RandomState(seed)
     for sens, L, k, n in configs:
         seqs = list(itertools.product(ALPHABET, repeat=depth))
